@@ -89,7 +89,8 @@ class FockDimensions:
             )
             resulting_state = jnp.dot(operator, self.state)
             cdf: float = 0
-            if resulting_state[-1, 0] > (1 - self.threshold) * 1e-3:
+            # Squeezing populates every second level only: look at the last two
+            if jnp.max(jnp.abs(resulting_state[-2:, 0])) > (1 - self.threshold) * 1e-3:
                 return -1
             for i in range(len(resulting_state)):
                 tmp = jnp.abs(resulting_state[i][0]) ** 2
@@ -104,7 +105,10 @@ class FockDimensions:
             )
             resulting_state = operator @ self.state @ operator.T.conj()
             cdf = 0
-            if jnp.abs(resulting_state[-1, -1]) > (1 - self.threshold) * 1e-3:
+            if (
+                jnp.max(jnp.abs(jnp.diag(resulting_state)[-2:]))
+                > (1 - self.threshold) * 1e-3
+            ):
                 return -1
             for i in range(self.dimensions):
                 tmp = jnp.abs(resulting_state[i, i])
